@@ -7,6 +7,12 @@ fn main() {
         eprintln!("usage: rtamc <ID> <quick|thorough> | rtamc replay <file>");
         std::process::exit(2);
     }
+    if args[1] == "c20-shard" {
+        props::c20::shard_main(&args[2..]);
+    }
+    if args[1] == "c20-one" {
+        props::c20::one_main(&args[2]);
+    }
     if args[1] == "replay" {
         let txt = std::fs::read_to_string(&args[2]).unwrap_or_else(|e| machinery_error(&format!("{e}")));
         let v: serde_json::Value = serde_json::from_str(&txt).unwrap_or_else(|e| machinery_error(&format!("{e}")));
@@ -20,6 +26,14 @@ fn main() {
             "fp-case" => props::c08::replay(&v["case"]),
             "sbf-case" | "sbf-law" => props::c0910::replay_sbf(&v["case"]),
             "arr-case" => props::c0910::replay_arr(&v["case"]),
+            "steps-arr" | "steps-rb" => props::c11::replay(&kind, &v["case"]),
+            "derived" | "trace" | "dual" => props::c12::replay(&kind, &v["case"]),
+            "ext" | "hist" => props::c13::replay(&kind, &v["case"]),
+            "cost" | "cost-trace" | "cost-ext" | "cost-hist" => props::c14::replay(&kind, &v["case"]),
+            "poisson" | "poisson-pmf" => props::c15::replay(&kind, &v["case"]),
+            "rb-compose" => props::c16::replay(&v["case"]),
+            "harden" | "agree" => props::c1719::replay(&kind, &v["case"]),
+            "c20-case" => props::c20::replay(&v["case"]),
             _ => machinery_error(&format!("unknown replay kind {kind}")),
         };
         if still {
@@ -44,6 +58,15 @@ fn main() {
         "C08" => props::c08::run(&mut ctx),
         "C09" => props::c0910::run_c09(&mut ctx),
         "C10" => props::c0910::run_c10(&mut ctx),
+        "C11" => props::c11::run(&mut ctx),
+        "C12" => props::c12::run(&mut ctx),
+        "C13" => props::c13::run(&mut ctx),
+        "C14" => props::c14::run(&mut ctx),
+        "C15" => props::c15::run(&mut ctx),
+        "C16" => props::c16::run(&mut ctx),
+        "C17" => props::c1719::run_c17(&mut ctx),
+        "C19" => props::c1719::run_c19(&mut ctx),
+        "C20" => props::c20::run(&mut ctx),
         _ => machinery_error(&format!("unknown property {id}")),
     };
     std::process::exit(ctx.finish(&level, cov, assumptions));
